@@ -90,6 +90,7 @@ type Report struct {
 	Samples      []map[string]any  `json:"samples"`
 	Violations   []ReportViolation `json:"violations"`
 	OtherViols   map[string]int    `json:"violations_of_other_properties"`
+	HarnessErrs  []string          `json:"harness_errors"` // trouble of the simulator itself (stall, step cap): exit 2, never a VIOLATION
 	ClassCounts  map[string]int    `json:"violation_class_counts"` // runs per violation class of this property (all runs, not only the reported one)
 	EventHashes  map[string]string `json:"event_hashes,omitempty"`
 	WallS        float64           `json:"wall_s"`
@@ -230,6 +231,12 @@ func Main(engines map[string]Engine) {
 			rep.Samples = append(rep.Samples, s)
 		}
 		for _, v := range res.Viols {
+			if v.Property == "HARNESS" {
+				if len(rep.HarnessErrs) < 5 {
+					rep.HarnessErrs = append(rep.HarnessErrs, fmt.Sprintf("run %d: %s: %s", run, v.Class, v.Detail))
+				}
+				continue
+			}
 			if v.Property != *prop {
 				rep.OtherViols[v.Property+":"+v.Class]++
 			}
